@@ -52,6 +52,8 @@ pub struct Recorder {
     per_sig: BTreeMap<String, u64>,
     pub cap_per_sig: u64,
     pub stats: BTreeMap<String, u64>,
+    /// the raw case line being replayed (kept so that a disagreement can be replayed verbatim)
+    pub cur_case: Option<String>,
 }
 
 impl Recorder {
@@ -63,6 +65,7 @@ impl Recorder {
             per_sig: BTreeMap::new(),
             cap_per_sig: 40,
             stats: BTreeMap::new(),
+            cur_case: None,
         }
     }
 
@@ -87,7 +90,8 @@ impl Recorder {
             return;
         }
         if let Some(f) = self.out.as_mut() {
-            let rec = json!({"props": props, "what": what, "detail": detail});
+            let case = self.cur_case.as_ref().filter(|c| c.len() < 60_000).cloned();
+            let rec = json!({"props": props, "what": what, "detail": detail, "case": case});
             let _ = writeln!(f, "{}", rec);
         }
     }
